@@ -39,7 +39,7 @@ type Scenario struct {
 	Key   string          `json:"key"`
 	Set   abs.Strs        `json:"set"`
 	Clr   abs.Strs        `json:"clr"`
-	Extra bool            `json:"extra"`
+	Extra string          `json:"extra"`
 	A     json.RawMessage `json:"a"`
 	B     json.RawMessage `json:"b"`
 }
@@ -166,8 +166,11 @@ func one(n int, s Scenario, raw string) rec.Event {
 				isset = append(isset, nm)
 			}
 		}
-		if s.Extra {
+		switch s.Extra {
+		case "b20":
 			m |= 1 << 19
+		case "b14":
+			m |= 1 << 13
 		}
 		before := m
 		pretty := m.PrettyString()
